@@ -950,7 +950,7 @@ func (in *Interp) execIndexAddr(g *Goroutine, fr *Frame, x *ssa.IndexAddr) {
 		if i < 0 {
 			return
 		}
-		in.set(fr, x, Ptr{b.arr.sub[b.off+i]})
+		in.set(fr, x, Ptr{in.elem(b.arr, b.off+i)})
 	case Ptr:
 		if b.c == nil {
 			in.goPanic(g, "nil", "nil pointer dereference (array index)", nil)
@@ -960,7 +960,7 @@ func (in *Interp) execIndexAddr(g *Goroutine, fr *Frame, x *ssa.IndexAddr) {
 		if i < 0 {
 			return
 		}
-		in.set(fr, x, Ptr{b.c.sub[i]})
+		in.set(fr, x, Ptr{in.elem(b.c, i)})
 	default:
 		panic(fmt.Sprintf("IndexAddr on %T", base))
 	}
@@ -1375,7 +1375,7 @@ func (in *Interp) convert(g *Goroutine, v Value, from, to types.Type) Value {
 			if eb, ok := sl.Elem().Underlying().(*types.Basic); ok && eb.Kind() == types.Uint8 {
 				arr := in.newArray(sl.Elem(), s.Len())
 				for i := 0; i < s.Len(); i++ {
-					arr.sub[i].v = in.strByte(s, i)
+					in.elem(arr, i).v = in.strByte(s, i)
 				}
 				return SliceV{arr: arr, len: s.Len(), cap: s.Len()}
 			}
@@ -1387,7 +1387,7 @@ func (in *Interp) convert(g *Goroutine, v Value, from, to types.Type) Value {
 				rs := []rune(cs)
 				arr := in.newArray(sl.Elem(), len(rs))
 				for i, r := range rs {
-					arr.sub[i].v = tt.Const(32, uint64(r))
+					in.elem(arr, i).v = tt.Const(32, uint64(r))
 				}
 				return SliceV{arr: arr, len: len(rs), cap: len(rs)}
 			}
@@ -1401,14 +1401,14 @@ func (in *Interp) convert(g *Goroutine, v Value, from, to types.Type) Value {
 		if eb, ok := sl.Elem().Underlying().(*types.Basic); ok && eb.Kind() == types.Uint8 {
 			b := make([]*Term, s.len)
 			for i := 0; i < s.len; i++ {
-				b[i] = in.load(s.arr.sub[s.off+i]).(*Term)
+				b[i] = in.load(in.elem(s.arr, s.off+i)).(*Term)
 			}
 			return in.mkStr(b)
 		}
 		if eb, ok := sl.Elem().Underlying().(*types.Basic); ok && eb.Kind() == types.Int32 {
 			rs := make([]rune, s.len)
 			for i := 0; i < s.len; i++ {
-				t := in.load(s.arr.sub[s.off+i]).(*Term)
+				t := in.load(in.elem(s.arr, s.off+i)).(*Term)
 				if !t.IsConst() {
 					in.unsupported("symbolic []rune to string")
 				}
@@ -1704,7 +1704,7 @@ func (in *Interp) builtin(g *Goroutine, name string, args []Value, c *ssa.CallCo
 		switch y := args[1].(type) {
 		case SliceV:
 			for i := 0; i < y.len; i++ {
-				elems = append(elems, in.load(y.arr.sub[y.off+i]))
+				elems = append(elems, in.load(in.elem(y.arr, y.off+i)))
 			}
 		case Str:
 			for i := 0; i < y.Len(); i++ {
@@ -1728,17 +1728,17 @@ func (in *Interp) builtin(g *Goroutine, name string, args []Value, c *ssa.CallCo
 			}
 			tmp := make([]Value, n)
 			for i := 0; i < n; i++ {
-				tmp[i] = in.load(y.arr.sub[y.off+i])
+				tmp[i] = in.load(in.elem(y.arr, y.off+i))
 			}
 			for i := 0; i < n; i++ {
-				in.store(d.arr.sub[d.off+i], tmp[i])
+				in.store(in.elem(d.arr, d.off+i), tmp[i])
 			}
 		case Str:
 			if y.Len() < n {
 				n = y.Len()
 			}
 			for i := 0; i < n; i++ {
-				in.store(d.arr.sub[d.off+i], in.strByte(y, i))
+				in.store(in.elem(d.arr, d.off+i), in.strByte(y, i))
 			}
 		}
 		return tt.Const(64, uint64(n))
@@ -1785,7 +1785,7 @@ func (in *Interp) builtin(g *Goroutine, name string, args []Value, c *ssa.CallCo
 			}
 		case SliceV:
 			for i := 0; i < x.len; i++ {
-				in.store(x.arr.sub[x.off+i], in.zero(x.arr.typ))
+				in.store(in.elem(x.arr, x.off+i), in.zero(x.arr.typ))
 			}
 		}
 		return nil
@@ -1805,7 +1805,7 @@ func (in *Interp) appendVals(s SliceV, elems []Value, et types.Type) SliceV {
 	need := s.len + len(elems)
 	if s.arr != nil && need <= s.cap {
 		for i, e := range elems {
-			in.store(s.arr.sub[s.off+s.len+i], e)
+			in.store(in.elem(s.arr, s.off+s.len+i), e)
 		}
 		return SliceV{arr: s.arr, off: s.off, len: need, cap: s.cap}
 	}
@@ -1815,10 +1815,10 @@ func (in *Interp) appendVals(s SliceV, elems []Value, et types.Type) SliceV {
 	}
 	arr := in.newArray(et, nc)
 	for i := 0; i < s.len; i++ {
-		in.store(arr.sub[i], in.load(s.arr.sub[s.off+i]))
+		in.store(in.elem(arr, i), in.load(in.elem(s.arr, s.off+i)))
 	}
 	for i, e := range elems {
-		in.store(arr.sub[s.len+i], e)
+		in.store(in.elem(arr, s.len+i), e)
 	}
 	return SliceV{arr: arr, off: 0, len: need, cap: nc}
 }
